@@ -17,6 +17,7 @@ from .peer import PeerSim, fix_time
 SESSION_TYPES = refframer.SESSION_TYPES
 SLOT_KINDS = ["app", "app", "app", "app_pdN", "declined", "sess0", "sess1", "sessA", "sess2", "sess4", "sess5", "hole", "res_pd", "res_gf"]
 BIG = 2**62
+APP_TYPES_RICH = ["D", "8", "AE", "AS", "j", "U1", "AP", "0X", "5a", "BE"]
 U8_TEXTS = ["Z\u00fcrich", "\u20ac 5", "\u00e9\u00e8\u00ff", "\u4e2d\u6587", "na\u00efve \U0001f600", "\u00a0"]
 
 
@@ -34,8 +35,10 @@ def make_config(seed, tier="quick"):
     if r8.random() < 0.35:
         slots = [("app_u8" if k == "app" and r8.random() < 0.6 else k) for k in slots]
     u8_live = r8.random() < 0.3
+    rich_slots = r8.random() < 0.3
     return dict(
         u8_live=u8_live,
+        rich_slots=rich_slots,
         seed=seed,
         eut_role=r.choice(["acceptor", "initiator"]),
         hb=1000,
@@ -114,9 +117,18 @@ class ResendSim(PeerSim):
                     body.append(("58", (U8_TEXTS[n % len(U8_TEXTS)] + f" {n}").encode("utf-8")))
                 else:
                     body.append(("58", f"text {n} a=b"))
+                if cfg.get("rich_slots") and n % 3 == 0:
+                    # repeating groups (flat and nested): a retransmission carries every entry, in order
+                    body += [("453", "2"), ("448", f"TRADER-{n}"), ("447", "D"), ("452", "12"),
+                             ("802", "1"), ("523", "desk"), ("803", "1"),
+                             ("448", "DESK-A"), ("447", "D"), ("452", "3")]
                 # app_pdN: an original transmission that spells out PossDupFlag=N
                 extra = (("43", "N"),) if kind == "app_pdN" else ()
-                fr = refframer.build("D" if n % 2 else "8", body, sender, target, n, st, header_extra=extra)
+                mtype = "D" if n % 2 else "8"
+                if cfg.get("rich_slots"):
+                    # application types of two characters (some begin with the letter of a session type)
+                    mtype = APP_TYPES_RICH[n % len(APP_TYPES_RICH)]
+                fr = refframer.build(mtype, body, sender, target, n, st, header_extra=extra)
             elif kind == "res_pd":
                 # what an earlier (destructive) resend left behind: a PossDup copy
                 body = [("11", f"J-{n}"), ("55", "ES"), ("54", "1"), ("38", n), ("44", "2.5")]
